@@ -516,7 +516,7 @@ fn main() {
     watch.done.store(true, AO::SeqCst);
     total.sample(json!({"op": "half_life", "series": "ramp 0..40", "min_periods": 1, "model": 39}));
     let meta = Meta {
-        rule: "half_life: the ramp family (len 1..=N, every min_periods: realises every (len, L) pair hence every path of the doubling search and of the bisection), square-wave / staircase / alternating profiles, AR(1)-type paths with every persistence 0, 0.05, .., 0.95, 0.99 under three fixed innovation patterns, and every word over {null,-1,0,1,2} up to length L with every min_periods (f64 and Option<f64>): no panic, returns (watchdog), result in 1..=len-1 (0 iff len < 2), and when the model's lag profile is a strict threshold profile the result is the first lag not above 0.5 capped at len-1. winsorize: every word of the value alphabet, and long structured series of 17..=64 elements (ramps, saws, plateaus, modular permutations, null patterns), x 3 methods x parameter grids: one output per input, nulls stay null, inside values bit-identical, outside values on the nearer model bound, order preserving. vcorr(Spearman): every pair word over {null,0,1,2,3}^2 with <= 1 null each: equals Pearson of average ranks; invariant under 2x+1, x^3, exp. Non-trivial = distinct words / (len, min_periods) points.".into(),
+        rule: "half_life: the ramp family (len 1..=N, every min_periods: realises every (len, L) pair hence every path of the doubling search and of the bisection), square-wave / staircase / alternating profiles, AR(1)-type paths with every persistence 0, 0.05, .., 0.95, 0.99 under three fixed innovation patterns, and every word over {null,-1,0,1,2} up to length L with every min_periods (f64 and Option<f64>): no panic, returns (watchdog), result in 1..=len-1 (0 iff len < 2), and when the model's lag profile is a strict threshold profile the result is the first lag not above 0.5 capped at len-1. winsorize: every word of the value alphabet, and long structured series of 17..=64 elements (ramps, saws, plateaus, modular permutations, null patterns), x 3 methods x parameter grids: one output per input, nulls stay null, inside values bit-identical, outside values on the nearer model bound, order preserving. vcorr(Spearman): every pair word over {null,0,1,2,3}^2 with <= 1 null each: equals Pearson of average ranks; invariant under 2x+1, x^3, exp. Non-trivial = distinct words / (len, min_periods) points. Also winsorize on i32 / Option<i32> values whose sum leaves the type (winsorize-narrow; tolerance of the bounds relative to the data's magnitude; DESIGN 5.16).".into(),
         bounds: json!({"ramp_len": run.pick(48, 96), "profile_len": run.pick(24, 56), "half_life_words_L": hl.max_len, "winsorize": {"alphabet": json_word(&wz.alpha), "L": wz.max_len, "q": [0, 0.01, 0.1, 0.25, 0.5], "k": [0, 0.5, 1, 3]}, "spearman_L": sp.max_len}),
         assumptions: vec!["profiles within 1e-6 of the 0.5 threshold are judged for totality and range only".into(), "finite exact inputs (DESIGN 5.2)".into()],
         exhaustive: true,
